@@ -5,6 +5,7 @@ package sim
 // SOAP AttributeQuery, with the serialisation freedoms the standards give.
 
 import (
+	"crypto/tls"
 	"encoding/base64"
 	"fmt"
 	"io"
@@ -427,6 +428,15 @@ func buildAttributeQueryXML(f *attrQueryFields, st *Style) (envelopeOpen, query,
 		if r.Friendly != "" {
 			sb.WriteString(` FriendlyName="` + xa(r.Friendly) + `"`)
 		}
+		if len(r.Values) > 0 {
+			// saml-core 3.3.2.3: the query may name the values it is interested in
+			sb.WriteString(">")
+			for _, v := range r.Values {
+				sb.WriteString("<" + ns.a + "AttributeValue>" + xt(v) + "</" + ns.a + "AttributeValue>")
+			}
+			sb.WriteString("</" + ns.a + "Attribute>")
+			continue
+		}
 		sb.WriteString("/>")
 	}
 	sb.WriteString(nl + "</" + ns.p + "AttributeQuery>")
@@ -540,7 +550,10 @@ func (w *World) requestHeaders(m *MsgSpec) http.Header {
 	}
 	if m.XFHeader != "" {
 		for i, n := range w.cfg.IDP.Headers {
-			if i == 0 {
+			if m.XFWhich == 1 && i > 0 || m.XFWhich == 2 && i != 1 && len(w.cfg.IDP.Headers) > 1 {
+				continue // this proxy sets one of the configured headers only
+			}
+			if i == 0 || m.XFWhich == 2 {
 				h.Set(n, m.XFHeader)
 			} else {
 				// a header of lower priority names another host (what an inner proxy added): it must never win
@@ -587,6 +600,17 @@ func (w *World) destination(m *MsgSpec, kind, issuer string) (string, bool) {
 		return w.IDPModel.Location(kind, w.IDPModel.Issuer(h, hdr)), true
 	case "foreign":
 		return "https://evil.example/SSO", true
+	case "metadata-base":
+		// the endpoint's path below the URL under which the metadata document is published (when it is published externally)
+		if e := w.cfg.IDP.Metadata; e.Set && e.URL != "" {
+			if base := strings.TrimSuffix(e.URL, "/"+strings.TrimPrefix(e.Path, "/")); base != e.URL {
+				return base + w.IDPModel.Route(kind), true
+			}
+		}
+		return "https://gateway.example" + w.IDPModel.Route(kind), true
+	case "issuer-route":
+		// issuer + the path the router serves: the advertised location unless the endpoint is published under an external URL
+		return strings.TrimSuffix(issuer, "/") + w.IDPModel.Route(kind), true
 	case "case":
 		return strings.ToUpper(adv[:8]) + adv[8:], true
 	case "upper-path":
@@ -767,6 +791,9 @@ func BuildRequest(w *World, t *Task, m *MsgSpec) (*http.Request, *Sent, error) {
 	}
 	req.Host = s.Host
 	req.RequestURI = target
+	if m.TLS {
+		req.TLS = &tls.ConnectionState{Version: tls.VersionTLS13, HandshakeComplete: true, ServerName: safeHost(s.Host)}
+	}
 	for k, v := range s.Header {
 		req.Header[k] = v
 	}
@@ -839,7 +866,7 @@ func (w *World) stampCommon(m *MsgSpec, sp *SPNode, s *Sent, kind string, f *req
 	switch m.DestMode {
 	case "", "advertised", "absent":
 	default:
-		if !m.Probe {
+		if !m.Probe && !(m.DestMode == "issuer-route" && f.Destination == w.IDPModel.Location(kind, s.IdPIssuer)) {
 			w.notConformant(s, "destination "+m.DestMode)
 		}
 	}
@@ -1223,6 +1250,26 @@ func (w *World) buildAttrQ(t *Task, m *MsgSpec, sp *SPNode, s *Sent) error {
 				s.XML = evil
 				w.notConformant(s, "tampered")
 				w.fire("tamper_soap_header_wrap")
+			}
+		}
+	}
+	if st := &m.Style; st.HoistNS != 0 && len(m.Tamper) == 0 {
+		// a SOAP stack that serialises the whole envelope at once declares the namespaces the query uses on an ancestor
+		// (same infoset; under exclusive C14N also the same digest input)
+		if decl := styleNS(st.Prefix).rootDecl; strings.Contains(query, "AttributeQuery"+decl) {
+			hoisted := false
+			if st.HoistNS == 1 {
+				if i := strings.Index(open, "Envelope"); i >= 0 {
+					if j := strings.Index(open[i:], ">"); j >= 0 {
+						open, hoisted = open[:i+j]+decl+open[i+j:], true
+					}
+				}
+			} else if i := strings.LastIndex(open, "Body>"); i >= 0 {
+				open, hoisted = open[:i+4]+decl+open[i+4:], true
+			}
+			if hoisted {
+				query = strings.Replace(query, "AttributeQuery"+decl, "AttributeQuery", 1)
+				w.probe("soap_query_namespaces_declared_on_an_ancestor")
 			}
 		}
 	}
